@@ -971,8 +971,8 @@ func (g *gen) stmtPanicky() {
 func (g *gen) stmt() {
 	g.budget--
 	g.curHasCall, g.curHasFault = false, false
-	k := g.pick("stmt", 24)
-	if g.rangeDepth > 0 && g.off["recover.in_range"] && k >= 23 {
+	k := g.pick("stmt", 28)
+	if g.rangeDepth > 0 && g.off["recover.in_range"] && k == 23 {
 		k = 0 // no recovered panic inside a range loop (helpers that recover are filtered by callable)
 	}
 	switch k {
@@ -1000,9 +1000,111 @@ func (g *gen) stmt() {
 		g.stmtCall()
 	case 22:
 		g.stmtDefer()
-	default:
+	case 23:
 		g.stmtPanicky()
+	case 24, 25:
+		g.stmtPointer()
+	default:
+		g.stmtIface()
 	}
+}
+
+// stmtPointer takes the address of a variable and updates it through the pointer.
+func (g *gen) stmtPointer() {
+	if g.off["pointer"] {
+		g.stmtPrint()
+		return
+	}
+	g.feat("pointer")
+	typ := g.oneOf("ptrtyp", []string{"int", "int", "int8", "uint8", "int16", "uint32", "int64", "uint64", "string", "float64"})
+	var v string
+	if vs := g.assignable(typ); len(vs) > 0 && g.chance("ptrexisting", 2) {
+		v = g.oneOf("ptrvar", vs)
+	} else {
+		e := g.expr(typ, 1)
+		v = g.declare(typ)
+		g.line("var %s %s = %s", v, typ, e)
+	}
+	g.nvar++
+	p := fmt.Sprintf("p%d", g.nvar)
+	g.line("%s := &%s", p, v)
+	n := 1 + g.pick("nptrops", 3)
+	for i := 0; i < n; i++ {
+		switch {
+		case typ == "string":
+			g.line("*%s += %s", p, g.expr("string", 1))
+		case typ == "float64":
+			g.line("*%s %s %s", p, g.oneOf("fptrop", []string{"+=", "-=", "*="}), g.expr("float64", 1))
+		default:
+			switch g.pick("iptrop", 5) {
+			case 0:
+				g.line("*%s++", p)
+			case 1:
+				g.line("*%s--", p)
+			case 2:
+				g.line("*%s <<= %d", p, 1+g.pick("ptrshift", 3))
+			default:
+				g.line("*%s %s %s", p, g.oneOf("iptrop2", []string{"+=", "-=", "*=", "|=", "&=", "^=", "&^="}), g.expr(typ, 1))
+			}
+		}
+		g.curHasCall, g.curHasFault = false, false
+	}
+	g.line("println(*%s, %s)", p, v)
+}
+
+// stmtIface declares a variable with an interface type that is accessed indirectly:
+// through a pointer or assigned by a closure.
+func (g *gen) stmtIface() {
+	if g.off["iface"] {
+		g.stmtPrint()
+		return
+	}
+	g.feat("iface_indirect")
+	types := []string{"int", "string", "float64", "bool"}
+	t1 := g.oneOf("ifacetyp", types)
+	e1 := g.expr(t1, 1)
+	g.curHasCall, g.curHasFault = false, false
+	g.nvar++
+	i := fmt.Sprintf("i%d", g.nvar)
+	switch g.pick("ifaceform", 4) {
+	case 0:
+		g.line("var %s error", i)
+		g.line("q%s := &%s", i, i)
+		g.line("println(*q%s == nil, %s == nil)", i, i)
+		return
+	case 1:
+		g.line("var %s interface{} = %s", i, e1)
+		g.line("q%s := &%s", i, i)
+		if g.chance("ifacestore", 2) {
+			t2 := g.oneOf("ifacetyp2", types)
+			g.line("*q%s = %s", i, g.expr(t2, 1))
+			g.curHasCall, g.curHasFault = false, false
+		}
+	case 2:
+		g.line("var %s interface{} = %s", i, e1)
+		t2 := g.oneOf("ifacetyp2", types)
+		g.line("func() { %s = %s }()", i, g.expr(t2, 1))
+		g.curHasCall, g.curHasFault = false, false
+	default:
+		g.line("var %s interface{}", i)
+		g.line("q%s := &%s", i, i)
+		g.line("println(*q%s == nil, %s == nil)", i, i)
+		g.line("*q%s = %s", i, e1)
+	}
+	g.line("switch x := %s.(type) {", i)
+	g.line("case int:")
+	g.line("\tprintln(\"int\", x)")
+	g.line("case string:")
+	g.line("\tprintln(\"string\", x)")
+	g.line("case float64:")
+	g.line("\tprintln(\"float64\", x)")
+	g.line("case bool:")
+	g.line("\tprintln(\"bool\", x)")
+	g.line("case nil:")
+	g.line("\tprintln(\"nil\")")
+	g.line("default:")
+	g.line("\tprintln(\"other\")")
+	g.line("}")
 }
 
 // ---- functions and program
